@@ -213,6 +213,7 @@ func checkRedeclarationAlwaysReported(c *Check) {
 		return
 	}
 	info := rp.TypesInfo
+	E := NewEffects(L)
 	L.ForEachFunc([]string{"src/parser/resolver"}, func(fi *FuncInfo) {
 		ast.Inspect(fi.Decl.Body, func(n ast.Node) bool {
 			call, ok := n.(*ast.CallExpr)
@@ -248,7 +249,11 @@ func checkRedeclarationAlwaysReported(c *Check) {
 			}
 			mf := &mustFlow{G: g, Init: 1, Transfer: func(n ast.Node, s uint32) uint32 {
 				callsIn(n, func(c2 *ast.CallExpr) {
+					// a diagnostic is delivered: the error helper itself, or any call that reaches an error handler
+					// (effect summaries over the call graph, engine E3) - a report moved into a helper counts
 					if f2 := Callee(info, c2); f2 != nil && (nameIs(f2, "err") || nameIs(f2, "errVal")) {
+						s |= 1
+					} else if eff, _ := E.CallEffects(info, c2); eff&effHandler != 0 {
 						s |= 1
 					}
 				})
